@@ -53,11 +53,15 @@ class LoopSpec:
     inv(eng, st_entry, st_now) -> z3 Bool;  modifies: heap fields the body may write (callee frames included);
     locals_mod: local names assigned in the body (derived from the AST when None)."""
 
-    def __init__(self, inv, modifies=(), locals_mod=None, name="inv"):
+    def __init__(self, inv, modifies=(), locals_mod=None, name="inv", foreach=None):
         self.inv = inv
         self.modifies = modifies if modifies == "*" else tuple(modifies)
         self.locals_mod = locals_mod
         self.name = name
+        # foreach = (elem_fact, all_fact): elem_fact(eng, st, elem) must hold at the end of the body for the arbitrary
+        # element; all_fact(eng, st) - the same fact quantified over the collection - is assumed after the loop.  Only
+        # sound when nothing the fact reads changes during the loop: accepted for modifies == () only.
+        self.foreach = foreach
 
 
 class Frame:
@@ -811,6 +815,9 @@ class Engine:
                     if kind in ("ok", "cont"):
                         s2.obligations.append((f"{oname}/{spec.name}.step", list(s2.pc),
                                                zbool(spec.inv(self, entry, s2))))
+                        if spec.foreach is not None:
+                            s2.obligations.append((f"{oname}/{spec.name}.foreach-element", list(s2.pc),
+                                                   zbool(spec.foreach[0](self, s2, elem))))
                         # path ends here (cut point); keep its obligations alive through a terminal marker
                         out.append(("cut", s2, None))
                     elif kind == "brk":
@@ -818,6 +825,10 @@ class Engine:
                     else:
                         out.append((kind, s2, v))
         # 4. exit
+        if spec.foreach is not None:
+            if spec.modifies != ():
+                raise Unsupported("foreach facts need a loop that modifies nothing", node)
+            h.assume(zbool(spec.foreach[1](self, h)))
         if node.orelse:
             out.extend(self.exec_block(node.orelse, h))
         else:
